@@ -291,7 +291,7 @@ static void c16_case(uint64_t idx)
     vh_rng r; unsigned fn = (unsigned)(idx % 6), ci = fn % 3, par = fn / 3;
     const vh_cipher *c = &vh_ciphers[ci];
     unsigned nbe = cold ? 3 : (unsigned)maxbe[ci] + 1, be = (unsigned)((idx / 6) % 3), cls = cold ? (unsigned)((idx / 18) % 4) : (unsigned)((idx / 18) % 6);
-    vh_handle A, B, live_copy; long nreq, k; int ret; char d[400], key[300], nm[120];
+    vh_handle A, B, live_copy; long nreq, k; int ret, pass; char d[400], key[300], nm[120];
     uint8_t bkey[16], bctr[16], bin[64], z[64], ob1[64], ob2[64];
     int c14 = !strcmp(prop, "C14");
     static const char *const cname[6] = {"zeroed", "all-0xFF", "all-0xA5", "random", "stale-live-handle(ctx->decoy)", "stale-cleaned-handle(ctx->PROT_NONE)"};
@@ -322,7 +322,10 @@ static void c16_case(uint64_t idx)
     VH_MAXC("max_allocation_requests_per_init", nreq);
     vh_call_begin("cleanup(dry-run)"); if (par) c->par_cleanup(&A); else c->ctr_cleanup(&A); vh_call_end();
     } else { nreq = 1 + (long)((idx / 72) % 3); }
-    for (k = cold ? nreq : 1; k <= nreq; ++k) {
+    for (k = cold ? nreq : 1; k <= nreq; ++k)
+    for (pass = cold ? (int)((idx / 216) & 1) : 0; pass < (cold ? (int)((idx / 216) & 1) + 1 : 2); ++pass) {
+        /* pass 0: exactly the k-th request fails (a fall-back that obtains the memory another way may let init succeed: the object must
+           then be fully functional); pass 1: the k-th and every later request fail (memory is exhausted: init must return 0) */
         const am_event *ev; int nev, e, i; long w;
         const char *bad = NULL; int rets[14], nr = 0;
         /* prior contents of the caller's handle */
@@ -338,7 +341,7 @@ static void c16_case(uint64_t idx)
         am_add_decoy(decoy + 64);
         if (vh_def_available() && cls <= 3) vh_make_undef(&A, sizeof(A));      /* definedness monitor: the caller's handle holds nothing the library may rely on */
         am_reset(); am_mark(0, 1);
-        am_set_fail_at(k);
+        if (pass) am_set_fail_from(k); else am_set_fail_at(k);
         snprintf(key, sizeof(key), "%s:%s:init-with-failing-allocation", c14 ? "C14" : "C16", nm); vh_set_crash_key(key);
         vh_call_begin("init(allocation fails)"); ret = par ? c->par_init(&A) : c->ctr_init(&A); vh_call_end();
         if (cold && am_requests() < k) {        /* the init made fewer requests than k: no fault was injected */
@@ -350,7 +353,30 @@ static void c16_case(uint64_t idx)
         if (cold) VH_COUNT("cold_process_fault_cases", 1);
         VH_COUNT("fault_cases", 1);
         { char cn[96]; snprintf(cn, sizeof(cn), "faults_%s%s_%s", c->name, par ? "-parallel" : "", vh_backend_names[be]); *vh_counter_ref(cn) += 1; }
-        if (ret != 0) bad = "init-did-not-return-0";
+        if (ret != 0 && pass == 1) bad = "init-did-not-return-0";
+        if (ret != 0 && pass == 0 && !c14) {
+            /* one request failed but init reports success (it got the memory another way): judge the object by what it does */
+            uint8_t fo[64], fr[64]; vh_handle F; int r1 = 1, r2 = 1; const char *fb = NULL;
+            memset(&F, 0, sizeof(F)); memset(fo, 0, sizeof(fo)); memset(fr, 0, sizeof(fr));
+            if (vh_def_available()) vh_make_def(&A, sizeof(A));
+            snprintf(key, sizeof(key), "C16:%s:use-of-object-whose-init-recovered-from-a-failed-request", nm); vh_set_crash_key(key);
+            am_mark(0, 3);
+            vh_call_begin("use after recovered init");
+            if (par) { r1 &= c->par_set_key(&A, bkey, 16, 7, MANTIS_ENCRYPT); r1 &= c->par_encrypt(fo, bin, bin + 32, c->bb * 2, &A); c->par_cleanup(&A); }
+            else { r1 &= c->ctr_set_key(&A, bkey, 16, 7); r1 &= c->ctr_set_counter(&A, bctr, c->bb); r1 &= c->ctr_encrypt(fo, z, 40, &A); c->ctr_cleanup(&A); }
+            vh_call_end();
+            am_mark(2, -1);
+            if (par) { r2 &= c->par_init(&F); r2 &= c->par_set_key(&F, bkey, 16, 7, MANTIS_ENCRYPT); r2 &= c->par_encrypt(fr, bin, bin + 32, c->bb * 2, &F); c->par_cleanup(&F); }
+            else { r2 &= c->ctr_init(&F); r2 &= c->ctr_set_key(&F, bkey, 16, 7); r2 &= c->ctr_set_counter(&F, bctr, c->bb); r2 &= c->ctr_encrypt(fr, z, 40, &F); c->ctr_cleanup(&F); }
+            VH_COUNT("inits_that_recovered_from_a_single_failed_request", 1);
+            if (!r1 || !r2) fb = "object-from-recovered-init-does-not-work";
+            else if (memcmp(fo, fr, 64)) fb = "object-from-recovered-init-computes-differently";
+            ev = am_events(); nev = am_nevents();
+            for (e = 0; e < nev && !fb; ++e) if (ev[e].bad) fb = "bad-free-by-object-from-recovered-init";
+            { const am_block *bl; int nb, b; bl = am_blocks(&nb); for (b = 0; b < nb && !fb; ++b) if (bl[b].live && (bl[b].obj == 0 || bl[b].obj == 2)) fb = "block-leaked-by-object-from-recovered-init"; }
+            if (fb) { snprintf(d, sizeof(d), "{\"init\":\"%s%s_init\",\"backend\":\"%s\",\"failed_request\":%ld,\"prior_handle\":\"%s\"}", c->name, par ? "_parallel_ecb" : "_ctr", vh_backend_names[be], k, cname[cls]); snprintf(key, sizeof(key), "C16:%s:%s", nm, fb); viol(key, idx, d); }
+            continue;
+        }
         if (ret != 0 && c14) {      /* C14 speaks about objects that failed to initialise; this one claims to be live (C16 judges that) */
             vh_call_begin("cleanup(init reported success)"); if (par) c->par_cleanup(&A); else c->ctr_cleanup(&A); vh_call_end();
             continue;
